@@ -92,7 +92,11 @@ def oracle_load_equality(ck, rng):
         b = int(rng.integers(1, 5))
         S = tuple(int(x) for x in rng.integers(1, 5, size=3))
         dims = tuple(int(x) for x in rng.integers(10 * b, 10 * b + b + 3, size=3))
-        img = rng.integers(0, 50, size=dims).astype(np.float32)
+        # tomogram voxel type: float, or a narrow integer type whose block sums exceed its range
+        dt = [np.float32, np.int16, np.uint8, np.float64, np.int8][i % 5]
+        hi = {np.float32: 50, np.int16: 30000, np.uint8: 250, np.float64: 50, np.int8: 120}[dt]
+        img = rng.integers(hi // 2, hi, size=dims).astype(dt)
+        corner_safe = bool(i % 3 == 1)
         scale = float(rng.choice([1.0, 0.5, 2.0]))
         # binned-grid position c' (integer for odd S, half-integer for even S) -> original position c = b c' + (b-1)/2
         cb = np.array([rng.integers(4, 6) + ((s - 1) / 2 - (s - 1) // 2) for s in S], dtype=float)
@@ -103,13 +107,13 @@ def oracle_load_equality(ck, rng):
         kind = "batch" if i % 3 == 0 else "single"
         order = int(rng.choice([0, 1]))
         if kind == "single":
-            ld = SubtomogramLoader(image, mol, order=order, scale=scale, output_shape=S)
+            ld = SubtomogramLoader(image, mol, order=order, scale=scale, output_shape=S, corner_safe=corner_safe)
         else:
             # several tomograms with different contents, numpy- and dask-backed in every order
-            ld = BatchLoader(order=order, scale=scale, output_shape=S)
+            ld = BatchLoader(order=order, scale=scale, output_shape=S, corner_safe=corner_safe)
             backing = [["np", "da"], ["da", "np", "da"], ["np", "np", "da"], ["da", "da"], ["np"], ["da", "np"]][(i // 3) % 6]
             for j, bk in enumerate(backing):
-                imj = img if j == 0 else rng.integers(0, 50, size=dims).astype(np.float32)
+                imj = img if j == 0 else rng.integers(hi // 2, hi, size=dims).astype(dt)
                 ld.add_tomogram(da.from_array(imj, chunks=(7, 5, 6)) if bk == "da" else imj, mol, image_id=10 - j)
         compute = bool(i % 4) if kind == "single" else bool((i // 3) % 4 != 3)
         lb = ld.binning(b, compute=compute)
@@ -124,7 +128,7 @@ def oracle_load_equality(ck, rng):
         if not ok:
             ck.violation(what="binned.load(i) differs from the block-sum of the b-times larger subtomogram of the original loader",
                          inp={"binsize": b, "box": list(S), "dims": list(dims), "scale": scale, "kind": kind, "dask": use_dask, "order": order,
-                              "backing": (backing if kind == "batch" else None), "compute": compute,
+                              "dtype": np.dtype(dt).name, "corner_safe": corner_safe, "backing": (backing if kind == "batch" else None), "compute": compute,
                               "center_px": c.tolist()}, key={"site": "load-equality", "kind": kind, "binsize": b}, oracle="binned_load_equals_blocksum")
 
 
